@@ -60,13 +60,20 @@ def make_tree_doc(rng, like=None):
     quote = gen.raw_underscore_quote if (style == "under" and (like["raw"] if like is not None else rng.random() < 0.6)) else gen.nexus_quote
     raw = quote is gen.raw_underscore_quote
     block_comments = rng.random() < 0.4
+    hyphens = rng.random() < 0.3
 
     def tree_text():
         spec = gen.tree_spec(rng, labs, rng.choice(gen.SHAPES), rng.choice(["none", "int", "float", "mixed_none"]),
                              internal_labels=rng.random() < 0.3)
         s = gen.spec_to_newick(spec, rooting=rng.choice([None, None, True, False]), quote=quote)
+        if hyphens and ":" in s:
+            j = s.rfind(":")
+            k2 = j + 1
+            while k2 < len(s) and (s[k2].isdigit() or s[k2] in ".e"):
+                k2 += 1
+            s = s[:j + 1] + rng.choice(["1.5e-05", "-0.25", "2E-3"]) + s[k2:]
         if weights:
-            s = rng.choice(["[&W 1/2] ", "[&W 0.25] ", "[&W 2] ", ""]) + s
+            s = rng.choice(["[&W 1/2] ", "[&W 0.25] ", "[&W 2] ", "", "[&W 0] ", "[&W 0/3] "]) + s
         if meta and "'" not in s:
             j = s.find(")")
             if j > 0:
@@ -80,6 +87,17 @@ def make_tree_doc(rng, like=None):
         nblocks = rng.choice([1, 1, 2])
         text = "#NEXUS\n%sBEGIN TAXA;\n  DIMENSIONS NTAX=%d;\n  TAXLABELS %s;\nEND;\n" % (
             "[file comment]\n" if block_comments else "", n, " ".join(quote(l) for l in labs))
+        if like is None and rng.random() < 0.35:
+            nchar = rng.randint(2, 6)
+            text += "BEGIN CHARACTERS;\n  DIMENSIONS NCHAR=%d;\n  FORMAT DATATYPE=DNA MISSING=? GAP=-;\n  MATRIX\n" % nchar
+            for l in labs:
+                text += "    %s  %s\n" % (quote(l), "".join(rng.choice("ACGT") for _ in range(nchar)))
+            text += "  ;\nEND;\nBEGIN SETS;\n"
+            pool_ = ["CHARSET first = 1-%d;" % rng.randint(1, nchar), "CHARSET every = ALL;", "CHARSET odd = 1-.\\2;", "CHARSET last = %d;" % nchar]
+            rng.shuffle(pool_)
+            for st_ in pool_[:rng.randint(1, 3)]:
+                text += "  " + st_ + "\n"
+            text += "END;\n"
         cols = []
         for b in range(nblocks):
             text += "BEGIN TREES;\n"
@@ -387,8 +405,15 @@ class C13(Machine):
             ta = dendropy.TreeArray(taxon_namespace=ns)
             ta.read(data=text, schema=schema, **kw)
             ta2 = dendropy.TreeArray(taxon_namespace=ns)
-            for t in dendropy.TreeList.get(data=text, schema=schema, taxon_namespace=ns, **kw):
+            ref_trees = dendropy.TreeList.get(data=text, schema=schema, taxon_namespace=ns, **kw)
+            for t in ref_trees:
                 ta2.add_tree(t)
+            # the weight the array must hold for tree i is the weight the tree list route delivers (1.0 when it delivers none)
+            want_w = [float(t.weight) if t.weight is not None else 1.0 for t in ref_trees]
+            if [float(w) for w in ta._tree_weights] != want_w:
+                rec.violation("ROUTE_DIFFERS", {"schema": schema, "route": route, "what": "weights"},
+                              "TreeArray.read holds tree weights %s, the tree list route delivers %s" % (list(ta._tree_weights), want_w))
+                raise StopRun()
             a = [(tuple(ta._tree_split_bitmasks[i]), tuple(ta._tree_edge_lengths[i]), ta._tree_weights[i]) for i in range(len(ta))]
             b = [(tuple(ta2._tree_split_bitmasks[i]), tuple(ta2._tree_edge_lengths[i]), ta2._tree_weights[i]) for i in range(len(ta2))]
             return [repr(x) for x in a], [repr(x) for x in b]
